@@ -55,7 +55,12 @@ macro_rules! harnesses {
 }
 
 pub mod sock;
+pub mod refjson;
+pub mod p01;
+pub mod p02;
 pub mod p06;
+pub mod p13;
+pub mod p17;
 pub mod p18;
 
 pub mod gen;
